@@ -64,6 +64,10 @@ PREV_STATES = ['absent', 'identical', 'different', 'longer', 'shorter', 'empty']
 OLD_MTIME_NS = 1000000000 * 10**9 + 123456789          # 2001-09-09, with a sub-second part
 
 
+PRELUDES = ['', '', '/* ascii only */\n', '/* \xa9 2026 Jos\xe9 */\n',
+            'static const char *c23_s = "na\xefve \u4e2d\U0001f600";\n', '/* \u20ac\u20ac\u20ac */\n']
+
+
 def strategy(ctx):
     wcase = st.fixed_dictionaries({
         'mode': st.just('w'),
@@ -71,6 +75,8 @@ def strategy(ctx):
         'cuts': st.one_of(st.just([]), st.just([]), st.lists(st.integers(0, 10), min_size=1, max_size=2).map(sorted)),
         'modname': st.sampled_from(MODNAMES),
         'target': st.sampled_from(['c', 'py']),
+        # text in front of the C source (not ASCII in half of the cases: characters and bytes differ)
+        'prelude': st.sampled_from(PRELUDES),
     })
     xcase = st.fixed_dictionaries({
         'mode': st.just('x'),
@@ -84,12 +90,12 @@ def strategy(ctx):
 
 # ---------------------------------------------------------------- building FFIs
 
-def make_ffi(spec, cuts, modname, target):
+def make_ffi(spec, cuts, modname, target, prelude=''):
     """FFI for the top level of the include chain, set_source() done"""
     import cffi
     levels = cdefgen.split_chain(spec, cuts)
     levels = [lv for lv in levels[:-1] if lv['decls']] + [levels[-1]]
-    csrc = cdefgen.c_source(spec) if target == 'c' else None
+    csrc = (prelude + cdefgen.c_source(spec)) if target == 'c' else None
     prev = None
     for i, lv in enumerate(levels):
         f = cffi.FFI()
@@ -304,17 +310,20 @@ def prop(case, ctx):
 def _write_path(case, ctx):
     spec, cuts, modname, target = case['spec'], case['cuts'], case['modname'], case['target']
     cdef = cdefgen.cdef_text(spec)
-    detail = {'cdef': cdef, 'modname': modname, 'target': target, 'cuts': cuts}
+    prelude = case.get('prelude', '')
+    detail = {'cdef': cdef, 'modname': modname, 'target': target, 'cuts': cuts, 'prelude': prelude}
     kinds = cdefgen.kinds(spec)
-    ffi = make_ffi(spec, cuts, modname, target)
+    ffi = make_ffi(spec, cuts, modname, target, prelude)
+    if target == 'c' and not prelude.isascii():
+        ctx.event('c-source-not-ascii')
 
     # 1. determinism inside the process
     new = emit_text(ffi, target)
     if emit_text(ffi, target) != new:
         ctx.fail('two emits from the same FFI differ', **detail)
-    if emit_text(make_ffi(spec, cuts, modname, target), target) != new:
+    if emit_text(make_ffi(spec, cuts, modname, target, prelude), target) != new:
         ctx.fail('emits from two FFIs built from the same inputs differ', **detail)
-    ctx.note([cdef, cuts, modname, target, 'repeat'], len(kinds) >= 3, 'determinism:in-process')
+    ctx.note([cdef, cuts, modname, target, prelude, 'repeat'], len(kinds) >= 3, 'determinism:in-process')
 
     d = os.path.join(ctx.tmp, 'c23-%d' % os.getpid())
     os.makedirs(d, exist_ok=True)
